@@ -15,5 +15,5 @@ R1 == {<<3, 4>>}
 
 EnvVariant == IF "VARIANT" \in DOMAIN IOEnv THEN IOEnv.VARIANT ELSE "code"
 
-Dump == PrintT(<<"EDGE", ToJson([from |-> View, to |-> View', op |-> out'])>>)
+Dump == PrintT(<<"EDGE", ToJson([from |-> View, to |-> View', op |-> out', lvl |-> TLCGet("level")])>>)
 =============================================================================
